@@ -75,9 +75,10 @@ class Ctx:
                 stt[n] = self.labels.get(id(x), ("unknown", repr(x)))
             except Exception as exc:  # noqa: BLE001
                 stt[n] = type(exc).__name__
-        m = self.mv.get(None) if self.mv is not None else "n/a"
-        g = self.gv.get(None) if self.gv is not None else "n/a"
-        return {"state": stt, "metrics": m if m in (None, "n/a") else id(m), "group": g if g in (None, "n/a") else id(g)}
+        # "unset" and "set to None" are different states of a context variable
+        m = self.mv.get("unset") if self.mv is not None else "n/a"
+        g = self.gv.get("unset") if self.gv is not None else "n/a"
+        return {"state": stt, "metrics": m if (m is None or isinstance(m, str)) else id(m), "group": g if (g is None or isinstance(g, str)) else id(g)}
 
 
 def run_case(case) -> Outcome:  # noqa: C901, PLR0912, PLR0915
